@@ -11,6 +11,19 @@ from __future__ import annotations
 from pathlib import Path
 
 MEMBER_KIND = {"m1": "attr", "m2": "method"}
+# kind "imp": the class body binds the name with an import statement; one distinct object per class so that CPython's
+# getattr result identifies the class it was found in (index = class number - 1)
+IMPORTED = {
+    "m1": ("string", ["ascii_lowercase", "ascii_uppercase", "digits", "hexdigits", "octdigits", "punctuation"]),
+    "m2": ("os.path", ["join", "split", "basename", "dirname", "abspath", "normpath"]),
+}
+
+
+def kind_of(case: dict, c: int, m: str) -> str:
+    k = case.get("kind")
+    return k[c - 1].get(m, "def") if k and isinstance(k[c - 1], dict) else "def"
+
+
 EXT = 9  # marker of an unresolvable base in bases[c] (spec: Ext)
 # The external class named by the Ext position of class c (spec: ExtOf(c) - one distinct, otherwise unrelated class per
 # class statement, so that CPython's MRO restricted to the analysed classes is defined by the analysed classes alone):
@@ -50,6 +63,8 @@ def prelude(case: dict) -> str:
 
 def normalise(case: dict) -> dict:
     """TLC prints a function with an empty domain (Mem = {}) as an empty sequence."""
+    if "kind" in case:
+        case["kind"] = [x if isinstance(x, dict) else {} for x in case["kind"]]
     for key in ("attr", "inh"):
         case[key] = [x if isinstance(x, dict) else {} for x in case[key]]
     case.setdefault("delop", {"cls": 0, "name": "", "had": False, "out": "none"})
@@ -104,7 +119,10 @@ def class_chunk(case: dict, c: int, prefix: str = "", canonical: bool = False, g
     if case["layout"] == "sub" and not canonical:
         body += ["    def __class_getitem__(cls, item):", "        return cls"]
     for m in sorted(source_has(case)[c - 1]):
-        if MEMBER_KIND.get(m, "attr") == "method":
+        if kind_of(case, c, m) == "imp":
+            module, names = IMPORTED[m]
+            body.append(f"    from {module} import {names[c - 1]} as {m}")
+        elif MEMBER_KIND.get(m, "attr") == "method":
             body += [f"    def {m}(self):", f"        return 'C{c}'"]
         else:
             body.append(f"    {m} = 'C{c}'")
@@ -221,10 +239,10 @@ def cpython_view(case: dict) -> dict:
         k = ns[f"C{c}"]
         out["attr"][c] = {}
         for m in case["attr"][c - 1]:
-            v = getattr(k, m, None)
-            if callable(v):
-                v = v(None)
-            out["attr"][c][m] = 0 if v is None else int(v[1:])
+            # the class in whose namespace CPython's getattr found the object (objects are distinct per class)
+            v = getattr(k, m, ns)
+            owners = [c2 for c2 in order if isinstance(out["mro"].get(c2), list) and m in vars(ns[f"C{c2}"]) and vars(ns[f"C{c2}"])[m] is v]
+            out["attr"][c][m] = 0 if v is ns else (owners[0] if len(owners) == 1 else -1)
     return out
 
 
@@ -296,12 +314,24 @@ def apply_del(case: dict, coll, prefix: str = "") -> str:
     return "deleted" if had and d["name"] not in k.members else "noop"
 
 
+def _final_path(a) -> str:
+    """Path of the object an (inherited / view) alias finally stands for: follow the links that are bound to objects;
+    stop at a non-alias (= final_target) or at an unresolved import alias (a class-body import of an unloaded package:
+    the member of the declaring class *is* that alias)."""
+    cur = a
+    for _ in range(16):
+        if not cur.is_alias or not cur.resolved:
+            return cur.path
+        cur = cur.target
+    return "<loop>"
+
+
 def _member_view(a) -> dict:
     try:
         is_alias = bool(a.is_alias)
         return {
             "path": a.path,
-            "final": a.final_target.path if is_alias else a.path,
+            "final": _final_path(a),
             "inherited": bool(a.inherited),
             "alias": is_alias,
         }
@@ -451,11 +481,11 @@ def compare(case: dict, real: dict, agent: str, prefix: str = "") -> tuple:
                     viol.append((sig("inherited-extra", c, who=who), f"{self_path}.inherited_members has {m} -> {got} but no class of the MRO declares it"))
                 continue
             if got is None:
-                viol.append((sig("inherited-missing", c, who=who), f"{self_path}.inherited_members lacks {m}; CPython finds it in {class_path(case, owner, prefix)}"))
+                viol.append((sig("inherited-missing", c, who=who, mkind=kind_of(case, owner, m)), f"{self_path}.inherited_members lacks {m}; CPython finds it in {class_path(case, owner, prefix)}"))
                 continue
             want_final = f"{class_path(case, owner, prefix)}.{m}"
             if got.get("final") != want_final:
-                viol.append((sig("inherited-target", c, who=who), f"{self_path}.inherited_members[{m!r}] targets {got.get('final', got)}, CPython's look-up finds {want_final} (nearest definition along {paths(ref['order'])})"))
+                viol.append((sig("inherited-target", c, who=who, mkind=kind_of(case, owner, m)), f"{self_path}.inherited_members[{m!r}] targets {got.get('final', got)}, CPython's look-up finds {want_final} (nearest definition along {paths(ref['order'])})"))
             if got.get("path") != f"{self_path}.{m}" or got.get("inherited") is not True or got.get("alias") is not True or got.get("parent_is_self") is not True:
                 viol.append((sig("inherited-alias-shape", c, who=who), f"{self_path}.inherited_members[{m!r}] = {got}: expected an inherited alias with path {self_path}.{m}"))
             if not pending and case["inh"][c - 1][m]["owner"] != owner:
@@ -467,7 +497,7 @@ def compare(case: dict, real: dict, agent: str, prefix: str = "") -> tuple:
         for m in mem:
             it = v["item"][m]
             if m in has:
-                ok = isinstance(it, dict) and it.get("path") == f"{self_path}.{m}" and it.get("inherited") is False and (who == "alias" or it.get("alias") is False)
+                ok = isinstance(it, dict) and it.get("path") == f"{self_path}.{m}" and it.get("inherited") is False and (who == "alias" or it.get("alias") is (kind_of(case, c, m) == "imp"))
                 if who == "alias" and isinstance(it, dict):
                     ok = ok and it.get("final") == f"{class_path(case, c, prefix)}.{m}"
                 if not ok:
@@ -476,7 +506,7 @@ def compare(case: dict, real: dict, agent: str, prefix: str = "") -> tuple:
                 want_final = f"{class_path(case, want_inh[m], prefix)}.{m}"
                 ok = isinstance(it, dict) and it.get("path") == f"{self_path}.{m}" and it.get("final") == want_final and it.get("inherited") is True
                 if not ok:
-                    viol.append((sig("getitem-inherited", c, who=who), f"{self_path}[{m!r}] = {it}: expected an inherited alias {self_path}.{m} -> {want_final}"))
+                    viol.append((sig("getitem-inherited", c, who=who, mkind=kind_of(case, want_inh[m], m)), f"{self_path}[{m!r}] = {it}: expected an inherited alias {self_path}.{m} -> {want_final}"))
             elif it != "KeyError":
                 viol.append((sig("getitem-absent", c, who=who), f"{self_path}[{m!r}] = {it} although no class of the MRO declares {m}"))
 
